@@ -10,6 +10,7 @@ import (
 	"fmt"
 	"os"
 	"path/filepath"
+	"runtime"
 	"strings"
 	"sync"
 	"time"
@@ -102,6 +103,15 @@ type sim struct {
 	promised   map[int][3]uint64
 	inShadow   bool
 	peers      []string
+	// gate: a connection handler (a goroutine with HandleCluster on its stack) is held at its next
+	// lock operation until the simulator opens the gate
+	gateMu    sync.Mutex
+	gateArmed bool
+	gateHit   chan struct{}
+	gateOpen  chan struct{}
+	gateOp    *cop
+	heldDue   []*cop   // applied on the client's node while its handler was held at the gate
+	replyLost []string // commands that were applied on the client's node and never answered
 }
 
 var simSeq int
@@ -120,6 +130,7 @@ func newSim(nNodes int, clientSpecs []clientSpec) *sim {
 		}
 	}
 	rafthttp.VerifSendHook = func(from types.ID, m raftpb.Message) { s.atSend(int(from)-1, m) }
+	rt.FreeLockHook = func(obj interface{}) { s.atLock() }
 	peers := make([]string, nNodes)
 	for i := range peers {
 		peers[i] = fmt.Sprintf("http://127.0.0.1:%d", 20000+i)
@@ -519,14 +530,120 @@ func (s *sim) submitSent(ci int) {
 	s.awaitProposal(ci, op)
 }
 
+// atLock runs in whatever goroutine is about to lock a mutex of the instrumented packages.
+func (s *sim) atLock() {
+	s.gateMu.Lock()
+	if !s.gateArmed {
+		s.gateMu.Unlock()
+		return
+	}
+	pcs := make([]uintptr, 32)
+	n := runtime.Callers(2, pcs)
+	frames := runtime.CallersFrames(pcs[:n])
+	handler := false
+	for {
+		f, more := frames.Next()
+		if strings.HasSuffix(f.Function, ".HandleCluster") {
+			handler = true
+		}
+		if !more {
+			break
+		}
+	}
+	if !handler {
+		s.gateMu.Unlock()
+		return
+	}
+	s.gateArmed = false
+	hit, open := s.gateHit, s.gateOpen
+	s.gateMu.Unlock()
+	close(hit)
+	<-open
+}
+
+// armGate: the next lock operation of a connection handler blocks until openGate.
+func (s *sim) armGate() {
+	s.gateMu.Lock()
+	s.gateArmed = true
+	s.gateHit = make(chan struct{})
+	s.gateOpen = make(chan struct{})
+	s.gateMu.Unlock()
+}
+
+// openGate lets a held handler go on (and disarms a gate nobody reached).
+func (s *sim) openGate() {
+	s.gateMu.Lock()
+	s.gateArmed = false
+	open := s.gateOpen
+	s.gateOpen = nil
+	s.gateMu.Unlock()
+	if open != nil {
+		close(open)
+	}
+}
+
+// finishGate opens the gate and collects the replies of commands that were applied while their
+// handler was held: the handler goes on, and a command that has been applied on the client's own
+// node must now be answered - "each client receives the reply to its own command".
+func (s *sim) finishGate() {
+	if s.gateOp == nil {
+		s.openGate()
+		return
+	}
+	s.openGate()
+	for _, op := range s.heldDue {
+		c := s.clients[op.Client]
+		raw, v, st := c.conn.TakeReply(h.Patience)
+		if st != "ok" {
+			s.replyLost = append(s.replyLost, fmt.Sprintf("client %d: %q was committed and applied on its node while its connection handler was held at a lock right after handing over the proposal; the handler went on, but no reply ever arrived (%s)", op.Client, op.Args, st))
+			continue
+		}
+		s.step++
+		op.Done, op.Ret, op.Reply, op.Raw = true, s.step, v, raw
+		c.pending--
+	}
+	s.heldDue = nil
+	s.gateOp = nil
+}
+
+// submitStalled is submit with the client's connection handler held at its next lock operation: if the
+// handler reaches a lock before it has handed its proposal to the node, the stall changes nothing and
+// the gate is opened at once; if the proposal comes first, the handler stays held (the caller opens the
+// gate later) while the proposal is committed and applied.
+func (s *sim) submitStalled(ci int) bool {
+	c := s.clients[ci]
+	if c.next >= len(c.prog) || c.dead || c.pending > 0 {
+		return false
+	}
+	s.armGate()
+	ok := s.submit(ci) // awaitProposal opens the gate if the handler reaches a lock before it proposes
+	if !ok || len(c.ops) == 0 || c.ops[len(c.ops)-1].Done || c.ops[len(c.ops)-1].ID == "?" {
+		s.openGate() // nothing was proposed: nothing to hold
+		return ok
+	}
+	s.gateOp = c.ops[len(c.ops)-1] // proposed: a handler that reaches the gate now stays held
+	return ok
+}
+
 func (s *sim) awaitProposal(ci int, op *cop) bool {
 	c := s.clients[ci]
 	args := op.Args
 	n := s.nodes[c.node]
 	op.ID = "?"
 	deadline := time.Now().Add(60 * time.Second)
+	s.gateMu.Lock()
+	hit := s.gateHit
+	if !s.gateArmed {
+		hit = nil
+	}
+	s.gateMu.Unlock()
 	for {
 		select {
+		case <-hit:
+			// the handler reached a lock before handing over its proposal: holding it there would only
+			// delay the command - let it go on
+			hit = nil
+			s.openGate()
 		case p := <-n.proposeC:
 			op.ID = p.ID
 			n.mu.Lock()
@@ -568,6 +685,13 @@ func (s *sim) collectDue(i int) {
 	n.mu.Unlock()
 	for _, op := range due {
 		c := s.clients[op.Client]
+		s.gateMu.Lock()
+		held := s.gateOp == op && s.gateOpen != nil
+		s.gateMu.Unlock()
+		if held {
+			s.heldDue = append(s.heldDue, op) // its handler cannot write before the gate is opened
+			continue
+		}
 		raw, v, st := c.conn.TakeReply(60 * time.Second)
 		if st != "ok" {
 			s.failed = fmt.Sprintf("client %d: entry of %q applied on its node but no reply arrived (%s)", op.Client, op.Args, st)
@@ -636,6 +760,8 @@ func (s *sim) close() {
 			s.killNode(i)
 		}
 	}
+	s.openGate()
+	rt.FreeLockHook = nil
 	fileutil.VerifSyncHook = nil
 	rafthttp.VerifSendHook = nil
 	os.RemoveAll(s.root)
